@@ -91,7 +91,16 @@ type Op struct {
 	Body    []Op   `json:"body"`
 	Alt     []Op   `json:"alt"` // second entry point of the contract of a call node (entered by a "recall")
 	OK      *bool  `json:"ok,omitempty"` // filled in after execution where observable
+	Rt      bool   `json:"rt"`  // create: the constructor returns the runtime code that an "ncall" enters
+	Rev     bool   `json:"rev"` // ncall: the called code reverts after its CREATE
 }
+
+// runtime code of a contract created with rt: CREATE (empty init code), then STOP - or REVERT when the first
+// byte of the calldata is not zero
+var ncallRuntime = []byte{0x60, 0x00, 0x60, 0x00, 0x60, 0x00, 0xf0, 0x50, // CREATE(0, 0, 0), POP
+	0x60, 0x00, 0x35, 0x60, 0x00, 0x1a, // first byte of the calldata
+	0x60, 0x12, 0x57, 0x00, // JUMPI -> 0x12, STOP
+	0x5b, 0x60, 0x00, 0x60, 0x00, 0xfd} // JUMPDEST, REVERT(0, 0)
 
 // asm is a tiny assembler with 2-byte labels and a trailing data section.
 type asm struct {
@@ -146,6 +155,7 @@ type EvmWorld struct {
 	Roles   map[string]Key // S, T, W, ...
 	Created common.Address // address of the contract created by a top-level "create" (N0)
 	NAddrs  map[string]common.Address // addresses of the contracts created by nested "create" ops (N<id>)
+	RtAddrs map[common.Address]bool   // created contracts whose constructor returns the ncall runtime code
 }
 
 func (w *EvmWorld) contractAddr(id int) common.Address {
@@ -314,7 +324,7 @@ func (w *EvmWorld) compileBodyD(self common.Address, body, alt []Op, out map[com
 			a.op(0x50) // POP
 		}
 	}
-	emitOps := func(ops []Op) error {
+	emitOps := func(ops []Op, final bool) error {
 		for _, o := range ops {
 			value := new(big.Int)
 			if o.Value != "" {
@@ -357,6 +367,12 @@ func (w *EvmWorld) compileBodyD(self common.Address, body, alt []Op, out map[com
 					w.NAddrs = map[string]common.Address{}
 				}
 				w.NAddrs[fmt.Sprintf("N%d", o.ID)] = child
+				if o.Rt {
+					if w.RtAddrs == nil {
+						w.RtAddrs = map[common.Address]bool{}
+					}
+					w.RtAddrs[child] = true
+				}
 				tmp := map[common.Address][]byte{}
 				if err := w.compileBodyD(child, o.Body, nil, tmp, depth+1); err != nil {
 					return err
@@ -377,6 +393,17 @@ func (w *EvmWorld) compileBodyD(self common.Address, body, alt []Op, out map[com
 				a.op(0xf0)       // CREATE(value, 0, len) -> address or 0
 				a.op(0x15, 0x15) // ISZERO ISZERO: 1 if created
 				emitRecord(o)
+			case "ncall":
+				// a call into a contract that an earlier CREATE of this transaction deployed (calldata: one byte)
+				ncap := 0
+				if w.CapCalls {
+					ncap = 1_000_000
+				}
+				arg := []byte{0}
+				if o.Rev {
+					arg[0] = 1
+				}
+				emitCall(o, w.NAddrs[o.To], arg, 0, value, ncap)
 			case "recall":
 				// re-enter an existing contract of the tree through its alt entry point
 				rcap := 0
@@ -409,6 +436,17 @@ func (w *EvmWorld) compileBodyD(self common.Address, body, alt []Op, out map[com
 				return fmt.Errorf("unknown op %q", o.Op)
 			}
 		}
+		if w.RtAddrs[self] && final {
+			// the constructor returns the runtime code
+			a.push2(len(ncallRuntime))
+			a.pushData(ncallRuntime)
+			a.push1(0)
+			a.op(0x39) // CODECOPY(dest=0, off, len)
+			a.push1(byte(len(ncallRuntime)))
+			a.push1(0)
+			a.op(0xf3) // RETURN(0, len)
+			return nil
+		}
 		a.op(0x00) // STOP
 		return nil
 	}
@@ -417,12 +455,12 @@ func (w *EvmWorld) compileBodyD(self common.Address, body, alt []Op, out map[com
 		a.op(0x15) // ISZERO
 		a.pushLabel("main")
 		a.op(0x57) // JUMPI
-		if err := emitOps(alt); err != nil {
+		if err := emitOps(alt, false); err != nil {
 			return err
 		}
 		a.label("main")
 	}
-	if err := emitOps(body); err != nil {
+	if err := emitOps(body, true); err != nil {
 		return err
 	}
 	a.label("rev")
